@@ -114,7 +114,7 @@ func (w *World) modHeapsOfContract(c *Contract, sig *types.Signature) []string {
 
 // modLocHeaps: "c.n" "dst[*]" "*p" "wfailed" "c.chunkLens[*]" "X$..." (raw heap)
 func (w *World) modLocHeaps(loc string, sig *types.Signature) []string {
-	loc = strings.TrimSpace(loc)
+	loc = strings.TrimPrefix(strings.TrimSpace(loc), "!")
 	if i := strings.Index(loc, " if "); i > 0 {
 		loc = strings.TrimSpace(loc[:i])
 	}
@@ -472,31 +472,107 @@ func (w *World) FnValueTargets(v ssa.Value) (fns []*ssa.Function, user bool) {
 	return nil, true
 }
 
+// callRec is one call site as the mod-set analysis sees it.
+type callRec struct {
+	callee *ssa.Function // in-package target (static, closure, or CHA implementor)
+	args   []ssa.Value   // aligned with callee.Params (receiver first)
+}
+
+func stripFnVal(v ssa.Value) ssa.Value {
+	for {
+		if x, ok := v.(*ssa.ChangeType); ok {
+			v = x.X
+			continue
+		}
+		return v
+	}
+}
+
+func isFnTyped(v ssa.Value) bool {
+	_, ok := v.Type().Underlying().(*types.Signature)
+	return ok
+}
+
+func (w *World) inPkg(f *ssa.Function) bool {
+	return f != nil && (f.Pkg == w.Pkg || (f.Parent() != nil && f.Parent().Pkg == w.Pkg))
+}
+
+func (w *World) implsOf(c *ssa.CallCommon) []*ssa.Function {
+	var out []*ssa.Function
+	iface, ok := c.Value.Type().Underlying().(*types.Interface)
+	if !ok {
+		return nil
+	}
+	for _, f := range w.FnAll {
+		if f.Signature.Recv() == nil || f.Name() != c.Method.Name() {
+			continue
+		}
+		if types.Implements(f.Signature.Recv().Type(), iface) {
+			out = append(out, f)
+		}
+	}
+	return out
+}
+
+// writeExpansionMods: heaps touched by the expansion of binary.Write / Data.WriteTo
+// into one Write through the io.Writer interface; also returns the in-package Write implementors.
+func (w *World) writeExpansionMods(wa ssa.Value) (heaps []string, impls []*ssa.Function) {
+	heaps = append(heaps, "G$allocTop", w.ElemHeap(types.Typ[types.Uint8]))
+	iface, ok := wa.Type().Underlying().(*types.Interface)
+	if !ok {
+		return
+	}
+	if ct, ok := w.Spec.Contracts["(io.Writer).Write"]; ok {
+		for i := 0; i < iface.NumMethods(); i++ {
+			if iface.Method(i).Name() == "Write" {
+				heaps = append(heaps, w.modHeapsOfContract(ct, iface.Method(i).Type().(*types.Signature))...)
+			}
+		}
+	}
+	for _, g := range w.FnAll {
+		if g.Signature.Recv() != nil && g.Name() == "Write" && types.Implements(g.Signature.Recv().Type(), iface) {
+			impls = append(impls, g)
+		}
+	}
+	return
+}
+
+func isWriteExpansion(name string) bool {
+	return name == "encoding/binary.Write" || name == "(*github.com/blugelabs/bluge_segment_api.Data).WriteTo"
+}
+
+// computeModsets: which heap variables each function may write.
+//   base[f]   - everything except what calls through f's own function-typed parameters do
+//   pcalls[f] - f's parameters (by index) that may be called, directly or after forwarding
+//   full[f]   - base[f] plus the effects of whatever can be bound to those parameters
+// At a call site the callee's base set is combined with the effects of the actual
+// function arguments, so a known closure does not drag in "any caller-supplied callback".
 func (w *World) computeModsets() {
 	w.computeFnValueSources()
 	w.modsets = map[*ssa.Function]map[string]bool{}
+	w.baseMods = map[*ssa.Function]map[string]bool{}
+	w.pcalls = map[*ssa.Function]map[int]bool{}
 	w.ifaceOf = map[string]types.Type{}
 	w.allocs = map[*ssa.Function]bool{}
 	w.callers = map[*ssa.Function][]*ssa.Function{}
-	type edge struct{ from, to *ssa.Function }
-	var edges []edge
-	reentrant := map[*ssa.Function]bool{}
-	// implementors of interface methods inside the package (CHA)
-	impl := func(c *ssa.CallCommon) []*ssa.Function {
-		var out []*ssa.Function
-		for _, f := range w.FnAll {
-			if f.Signature.Recv() == nil || f.Name() != c.Method.Name() {
-				continue
-			}
-			if types.Implements(f.Signature.Recv().Type(), c.Value.Type().Underlying().(*types.Interface)) {
-				out = append(out, f)
+	direct := map[*ssa.Function]map[string]bool{}
+	calls := map[*ssa.Function][]callRec{}
+	extArgs := map[*ssa.Function][]ssa.Value{} // function values handed to code outside the package
+	userCall := map[*ssa.Function]bool{}       // calls a function value of unknown origin
+	paramIdx := func(f *ssa.Function, v ssa.Value) int {
+		if p, ok := stripFnVal(v).(*ssa.Parameter); ok {
+			for i, q := range f.Params {
+				if q == p {
+					return i
+				}
 			}
 		}
-		return out
+		return -1
 	}
 	for _, f := range w.FnAll {
 		ms := map[string]bool{}
-		w.modsets[f] = ms
+		direct[f] = ms
+		w.pcalls[f] = map[int]bool{}
 		if ct, ok := w.Spec.Contracts[w.FnName(f)]; ok {
 			for _, g := range ct.GhostSets {
 				for _, h := range w.modLocHeaps(g[0], f.Signature) {
@@ -504,74 +580,66 @@ func (w *World) computeModsets() {
 				}
 			}
 		}
+		add := func(hs ...string) {
+			for _, h := range hs {
+				ms[h] = true
+			}
+		}
+		elemHeaps := func(t types.Type) []string {
+			sl, ok := t.Underlying().(*types.Slice)
+			if !ok {
+				return nil
+			}
+			if st, key, local := w.localStruct(sl.Elem()); st != nil && local {
+				return w.structHeaps(st, key)
+			}
+			return []string{w.ElemHeap(sl.Elem())}
+		}
 		for _, b := range f.Blocks {
 			for _, ins := range b.Instrs {
 				switch ins := ins.(type) {
 				case *ssa.Store:
-					// stores into fresh local cells of this function are invisible outside
 					if a, ok := ins.Addr.(*ssa.Alloc); ok && !a.Heap {
 						continue
 					}
-					for _, h := range w.storeHeaps(ins.Addr) {
-						ms[h] = true
-					}
+					add(w.storeHeaps(ins.Addr)...)
 				case *ssa.MapUpdate:
 					if m, ok := ins.Map.Type().Underlying().(*types.Map); ok {
 						v, d := w.MapHeaps(m)
-						ms[v], ms[d] = true, true
+						add(v, d)
 					}
 				case *ssa.Alloc:
 					if ins.Heap {
-						w.allocs[f] = true
-						ms["G$allocTop"] = true
-						// zero-initialisation writes the fresh object's heaps
-						for _, h := range w.storeHeaps(ins) {
-							ms[h] = true
-						}
+						add("G$allocTop")
+						add(w.storeHeaps(ins)...)
 					}
 				case *ssa.MakeSlice:
-					w.allocs[f] = true
-					ms["G$allocTop"] = true
-					sl := ins.Type().Underlying().(*types.Slice)
-					if st, key, local := w.localStruct(sl.Elem()); st != nil && local {
-						for _, h := range w.structHeaps(st, key) {
-							ms[h] = true
-						}
-					} else {
-						ms[w.ElemHeap(sl.Elem())] = true
-					}
+					add("G$allocTop")
+					add(elemHeaps(ins.Type())...)
 				case *ssa.MakeMap:
-					w.allocs[f] = true
-					ms["G$allocTop"] = true
 					v, d := w.MapHeaps(ins.Type().Underlying().(*types.Map))
-					ms[v], ms[d] = true, true
+					add("G$allocTop", v, d)
 				case *ssa.MakeClosure, *ssa.MakeInterface:
-					ms["G$allocTop"] = true
+					add("G$allocTop")
+				case *ssa.Convert:
+					if _, ok := ins.Type().Underlying().(*types.Slice); ok {
+						add("G$allocTop")
+						add(elemHeaps(ins.Type())...)
+					}
 				case ssa.CallInstruction:
 					c := ins.Common()
 					name, callee := w.calleeName(c)
 					if strings.HasPrefix(name, "builtin:") {
 						switch name {
 						case "builtin:append":
-							w.allocs[f] = true
-							ms["G$allocTop"] = true
-							if sl, ok := c.Args[0].Type().Underlying().(*types.Slice); ok {
-								if st, key, local := w.localStruct(sl.Elem()); st != nil && local {
-									for _, h := range w.structHeaps(st, key) {
-										ms[h] = true
-									}
-								} else {
-									ms[w.ElemHeap(sl.Elem())] = true
-								}
-							}
+							add("G$allocTop")
+							add(elemHeaps(c.Args[0].Type())...)
 						case "builtin:copy":
-							if sl, ok := c.Args[0].Type().Underlying().(*types.Slice); ok {
-								ms[w.ElemHeap(sl.Elem())] = true
-							}
+							add(elemHeaps(c.Args[0].Type())...)
 						case "builtin:delete":
 							if m, ok := c.Args[0].Type().Underlying().(*types.Map); ok {
 								v, d := w.MapHeaps(m)
-								ms[v], ms[d] = true, true
+								add(v, d)
 							}
 						}
 						continue
@@ -579,111 +647,225 @@ func (w *World) computeModsets() {
 					if c.IsInvoke() {
 						w.ifaceOf[name] = c.Value.Type()
 						if ct, ok := w.Spec.Contracts[name]; ok {
-							for _, h := range w.modHeapsOfContract(ct, c.Signature()) {
-								ms[h] = true
-							}
+							add(w.modHeapsOfContract(ct, c.Signature())...)
 						}
-						for _, g := range impl(c) {
-							edges = append(edges, edge{f, g})
+						impls := w.implsOf(c)
+						for _, g := range impls {
+							calls[f] = append(calls[f], callRec{g, append([]ssa.Value{c.Value}, c.Args...)})
+						}
+						// function values handed to an interface method may be called by it
+						for _, a := range c.Args {
+							if isFnTyped(a) {
+								extArgs[f] = append(extArgs[f], a)
+							}
 						}
 						continue
 					}
 					if callee == nil {
-						// call of a function value: one of the closures in-package callers bind,
-						// and/or a caller-supplied callback (which may re-enter the read API)
-						fns, user := w.FnValueTargets(c.Value)
+						v := stripFnVal(c.Value)
+						if i := paramIdx(f, v); i >= 0 {
+							w.pcalls[f][i] = true
+							continue
+						}
+						fns, user := w.FnValueTargets(v)
 						if user {
-							reentrant[f] = true
+							userCall[f] = true
 						}
 						for _, g := range fns {
-							edges = append(edges, edge{f, g})
+							calls[f] = append(calls[f], callRec{g, c.Args})
 						}
 						continue
 					}
-					if callee.Pkg == w.Pkg || (callee.Parent() != nil && callee.Parent().Pkg == w.Pkg) {
+					if w.inPkg(callee) {
 						if ct, ok := w.Spec.Contracts[name]; ok && ct.Trusted {
-							for _, h := range w.modHeapsOfContract(ct, callee.Signature) {
-								ms[h] = true
-							}
+							add(w.modHeapsOfContract(ct, callee.Signature)...)
 						} else {
-							edges = append(edges, edge{f, callee})
+							calls[f] = append(calls[f], callRec{callee, c.Args})
 						}
 						continue
 					}
-					if name == "encoding/binary.Write" || name == "(*github.com/blugelabs/bluge_segment_api.Data).WriteTo" {
-						// expanded into an io.Writer.Write through the interface
-						ms["G$allocTop"] = true
-						ms[w.ElemHeap(types.Typ[types.Uint8])] = true
-						var wa ssa.Value = c.Args[0]
+					if isWriteExpansion(name) {
+						wa := c.Args[0]
 						if name != "encoding/binary.Write" {
 							wa = c.Args[1]
 						}
-						if iface, ok := wa.Type().Underlying().(*types.Interface); ok {
-							if ct, ok := w.Spec.Contracts["(io.Writer).Write"]; ok {
-								for i := 0; i < iface.NumMethods(); i++ {
-									if iface.Method(i).Name() == "Write" {
-										for _, h := range w.modHeapsOfContract(ct, iface.Method(i).Type().(*types.Signature)) {
-											ms[h] = true
-										}
-									}
-								}
-							}
-							for _, g := range w.FnAll {
-								if g.Signature.Recv() != nil && g.Name() == "Write" && types.Implements(g.Signature.Recv().Type(), iface) {
-									edges = append(edges, edge{f, g})
-								}
-							}
+						hs, impls := w.writeExpansionMods(wa)
+						add(hs...)
+						for _, g := range impls {
+							calls[f] = append(calls[f], callRec{g, nil})
 						}
 						continue
 					}
 					if ct, ok := w.Spec.Contracts[name]; ok {
-						for _, h := range w.modHeapsOfContract(ct, callee.Signature) {
-							ms[h] = true
+						add(w.modHeapsOfContract(ct, callee.Signature)...)
+					}
+					for _, a := range c.Args {
+						if isFnTyped(a) {
+							extArgs[f] = append(extArgs[f], a)
 						}
 					}
 				}
 			}
 		}
+		for _, cr := range calls[f] {
+			w.callers[cr.callee] = append(w.callers[cr.callee], f)
+		}
 	}
-	for _, e := range edges {
-		w.callers[e.to] = append(w.callers[e.to], e.from)
+	for _, f := range w.FnAll {
+		w.baseMods[f] = map[string]bool{}
+		w.modsets[f] = map[string]bool{}
+		for h := range direct[f] {
+			w.baseMods[f][h] = true
+			w.modsets[f][h] = true
+		}
 	}
-	// fixpoint
-	apiFns := []*ssa.Function{}
+	union := func(dst map[string]bool, src map[string]bool) bool {
+		ch := false
+		for h := range src {
+			if !dst[h] {
+				dst[h] = true
+				ch = true
+			}
+		}
+		return ch
+	}
+	user := map[string]bool{}
+	var apiFns []*ssa.Function
 	for _, n := range reentryAPI {
 		if f, ok := w.Fns[n]; ok {
 			apiFns = append(apiFns, f)
 		}
 	}
+	// effect of a function value v occurring in f, added to dst; toParam reports that v is f's parameter q
+	effOfArg := func(f *ssa.Function, v ssa.Value, dst map[string]bool, intoBase bool) bool {
+		ch := false
+		v = stripFnVal(v)
+		switch x := v.(type) {
+		case *ssa.MakeClosure:
+			ch = union(dst, w.modsets[x.Fn.(*ssa.Function)]) || ch
+		case *ssa.Function:
+			if w.inPkg(x) {
+				ch = union(dst, w.modsets[x]) || ch
+			}
+		case *ssa.Parameter:
+			if intoBase {
+				return false // deferred: accounted for through pcalls of f
+			}
+			if src := w.fnSrc[x]; src != nil {
+				for g := range src.fns {
+					ch = union(dst, w.modsets[g]) || ch
+				}
+				if src.user {
+					ch = union(dst, user) || ch
+				}
+			} else {
+				ch = union(dst, user) || ch
+			}
+		case *ssa.Const:
+		default:
+			ch = union(dst, user) || ch
+		}
+		return ch
+	}
 	for changed := true; changed; {
 		changed = false
-		for _, e := range edges {
-			for h := range w.modsets[e.to] {
-				if !w.modsets[e.from][h] {
-					w.modsets[e.from][h] = true
-					changed = true
+		for _, api := range apiFns {
+			changed = union(user, w.modsets[api]) || changed
+		}
+		for _, f := range w.FnAll {
+			base, full := w.baseMods[f], w.modsets[f]
+			for _, cr := range calls[f] {
+				changed = union(base, w.baseMods[cr.callee]) || changed
+				for p := range w.pcalls[cr.callee] {
+					if p >= len(cr.args) {
+						changed = union(base, user) || changed
+						continue
+					}
+					if q := paramIdx(f, cr.args[p]); q >= 0 {
+						if !w.pcalls[f][q] {
+							w.pcalls[f][q] = true
+							changed = true
+						}
+						continue
+					}
+					changed = effOfArg(f, cr.args[p], base, true) || changed
 				}
 			}
-			if w.allocs[e.to] && !w.allocs[e.from] {
-				w.allocs[e.from] = true
-				changed = true
-			}
-			if reentrant[e.to] && !reentrant[e.from] {
-				reentrant[e.from] = true
-				changed = true
-			}
-		}
-		for f := range reentrant {
-			for _, api := range apiFns {
-				for h := range w.modsets[api] {
-					if !w.modsets[f][h] {
-						w.modsets[f][h] = true
+			for _, a := range extArgs[f] {
+				if q := paramIdx(f, a); q >= 0 {
+					if !w.pcalls[f][q] {
+						w.pcalls[f][q] = true
 						changed = true
 					}
+					continue
+				}
+				changed = effOfArg(f, a, base, true) || changed
+			}
+			if userCall[f] {
+				changed = union(base, user) || changed
+			}
+			changed = union(full, base) || changed
+			for q := range w.pcalls[f] {
+				if q < len(f.Params) {
+					changed = effOfArg(f, f.Params[q], full, false) || changed
 				}
 			}
 		}
 	}
+	for _, f := range w.FnAll {
+		w.allocs[f] = w.modsets[f]["G$allocTop"]
+	}
+}
+
+// CallSiteMods: heaps a static/CHA call of in-package callee g with the given
+// arguments (aligned with g.Params) may write, seen from caller f.
+func (w *World) CallSiteMods(f, g *ssa.Function, args []ssa.Value) map[string]bool {
+	out := map[string]bool{}
+	for h := range w.baseMods[g] {
+		out[h] = true
+	}
+	user := func() {
+		for _, n := range reentryAPI {
+			if a, ok := w.Fns[n]; ok {
+				for h := range w.modsets[a] {
+					out[h] = true
+				}
+			}
+		}
+	}
+	for p := range w.pcalls[g] {
+		if p >= len(args) {
+			user()
+			continue
+		}
+		switch x := stripFnVal(args[p]).(type) {
+		case *ssa.MakeClosure:
+			for h := range w.modsets[x.Fn.(*ssa.Function)] {
+				out[h] = true
+			}
+		case *ssa.Function:
+			for h := range w.modsets[x] {
+				out[h] = true
+			}
+		case *ssa.Parameter:
+			if src := w.fnSrc[x]; src != nil {
+				for fn := range src.fns {
+					for h := range w.modsets[fn] {
+						out[h] = true
+					}
+				}
+				if src.user {
+					user()
+				}
+			} else {
+				user()
+			}
+		case *ssa.Const:
+		default:
+			user()
+		}
+	}
+	return out
 }
 
 func (w *World) ModsetOf(f *ssa.Function) []string {
